@@ -66,6 +66,9 @@ pub fn schedule_signature(sc: &Scenario) -> u64 {
       Op::Check => h = fnv(h, &[5]),
     }
   }
+  if let Some(server) = &sc.server {
+    h = fnv(h, serde_json::to_string(server).unwrap().as_bytes());
+  }
   h
 }
 
@@ -161,6 +164,7 @@ pub fn gen_state_scenario(property: &str, seed: u64, thorough: bool) -> Scenario
     profile: format!("{property}/state"),
     config,
     ops,
+    server: None,
   }
 }
 
@@ -441,6 +445,7 @@ pub fn generate(property: &str, seed: u64, thorough: bool) -> Scenario {
     "C14" => crate::reorg::gen_c14(seed, thorough),
     "C15" => crate::twin::gen_c15(seed, thorough),
     "C37" => crate::events::gen_c37(seed, thorough),
+    "C18" | "C19" => crate::explorer::gen_explorer(property, seed, thorough),
     other => panic!("no generator for {other}"),
   }
 }
@@ -453,6 +458,7 @@ pub fn run(property: &str, sc: &Scenario) -> RunReport {
     "C14" => crate::reorg::run_c14(sc),
     "C15" => crate::twin::run_c15(sc),
     "C37" => crate::events::run_c37(sc),
+    "C18" | "C19" => crate::explorer::run_explorer(property, sc),
     other => panic!("no runner for {other}"),
   }
 }
@@ -464,6 +470,8 @@ pub fn rule_for(property: &str) -> String {
     "C13" => "scenario = generated history (commit interval 1..6, savepoint interval 1..5, max savepoints 1..3) with ONE disk fault placed after a fault-free probe of the same history: crash at a disk operation (uniform, first operation after a sync, or the sync itself), crash at a named point on the commit / savepoint path, EIO, or ENOSPC; recovery image clean / torn / all-written; non-trivial = the fault actually fired and both oracles (state after restart = uninterrupted index of a committed height within [last acknowledged, in flight]; resumed tip = uninterrupted tip) were evaluated; distinct by (history+fault placement digest, final index digest)".into(),
     "C14" => "scenario = generated history with savepoint interval 1..12, max savepoints 1..4: growth, partial indexing (index far behind the tip), reorganisations of depth 1..30 (biased to the recoverable boundary) between updates and at named points inside updates (before/after each commit, between the savepoint transactions), consecutive reorganisations, prefetch lag 0..31; then up to three updates on the quiet node; allowed outcomes: Ok with masked dump equal to a from-scratch index of the final best chain, or Unrecoverable with the status flag; non-trivial = at least one reorganisation happened and ord either rolled back at least once or reported unrecoverable; distinct by (history digest, final index digest)".into(),
     "C37" => "scenario = generated chain indexed with an event receiver under a transparent schedule (commit intervals, update partition, reopen points, lag, transient prefetch errors); after every update the event stream so far is folded (locations, charms at creation, parents, etchings, mint counts and amounts, burned totals, per-outpoint balances with inputs cleared by the transaction each event names) and compared with the index; non-trivial = at least three events of at least two kinds; distinct by (schedule+config digest, final index digest)".into(),
+    "C18" => "scenario = generated chain (inscriptions with parents, delegates, reinscriptions, runes) indexed under a transparent schedule; at the final and one intermediate quiescent point the real explorer router is driven in-process: every inscription on /inscription/<id|number> and /r/inscription, all pages of /r/children and /r/parents, /inscriptions/block/<h>, /sat/<n>, /r/sat/<n> and /r/sat/<n>/at/<k> for every k from -(n+1) to n, /output/<o> for every inscribed or runic output plus a sample, /blockheight; fields compared with stored entries, the reference model (value, address, spent, sat ranges, rune balances, sat location) and creation order; non-trivial = at least two inscriptions and ten requests; distinct by (schedule+config digest, final index digest)".into(),
+    "C19" => "scenario = generated chain with arbitrary content-type bytes, encodings (none, valid br, invalid br, gzip), delegates to existing / missing / delegating / hidden inscriptions; server options {csp origin or none, decompress or not, hidden set biased to delegates}; every inscription on /content, /r/undelegated-content, /preview, /r/sat/<n>/at/<k>/content (k<0 and k>=0) with and without Accept-Encoding, plus one request to a list of other routes incl. 404s; checks: body, content type, encoding rule, CSP on every response, content CSP confined, hidden bodies never served, relative content never immutable; non-trivial = at least two inscriptions and ten requests; distinct by (schedule+config+server options digest, final index digest)".into(),
     _ => format!("{property}: distinct by (schedule+config digest, final index digest)"),
   }
 }
